@@ -203,8 +203,11 @@ class Evaluator:
                 recv = self.eval(n.func.value, module, env)
             except CantEval:
                 pass
+            if isinstance(recv, DefaultDict) and n.func.attr == "get" and args:
+                return recv[args[0]] if args[0] in recv else (args[1] if len(args) > 1 else None)
             if isinstance(recv, (str, dict, tuple, list, set, frozenset)) and n.func.attr in (
                 "format", "join", "keys", "values", "items", "lower", "upper", "strip", "split", "union", "copy",
+                "get", "splitlines", "rstrip", "lstrip", "startswith", "endswith", "replace", "partition", "rpartition",
             ):
                 try:
                     res = getattr(recv, n.func.attr)(*args, **kwargs)
